@@ -1,0 +1,118 @@
+//go:build verif
+
+// Machine-checked contracts for this package (comment-only; read by /verif/bin/vcgo).
+package canon
+
+// Documented names (C17): transcribed from the doc comments of the enum types (tools/gen_enum_contracts.py, reviewed).
+
+// meta/canon/canon.go  (ContinuousDrive)
+//@ func ContinuousDrive.String
+//@   props C17
+//@   pure
+//@   ensures [C17] ccd == 0 ==> r0 == "Single"
+//@   ensures [C17] ccd == 1 ==> r0 == "Continuous"
+//@   ensures [C17] ccd == 2 ==> r0 == "Movie"
+//@   ensures [C17] ccd == 3 ==> r0 == "Continuous, Speed Priority"
+//@   ensures [C17] ccd == 4 ==> r0 == "Continuous, Low"
+//@   ensures [C17] ccd == 5 ==> r0 == "Continuous, High"
+//@   ensures [C17] ccd == 6 ==> r0 == "Silent Single"
+//@   ensures [C17] ccd == 7 ==> r0 == "Unknown"
+//@   ensures [C17] ccd == 8 ==> r0 == "Unknown"
+//@   ensures [C17] ccd == 9 ==> r0 == "Single, Silent"
+//@   ensures [C17] ccd == 10 ==> r0 == "Continuous, Silent"
+
+// meta/canon/canon.go  (FocusMode)
+//@ func FocusMode.String
+//@   props C17
+//@   pure
+//@   ensures [C17] fm == 0 ==> r0 == "One-shot AF"
+//@   ensures [C17] fm == 1 ==> r0 == "AI Servo AF"
+//@   ensures [C17] fm == 2 ==> r0 == "AI Focus AF"
+//@   ensures [C17] fm == 3 ==> r0 == "Manual Focus"
+//@   ensures [C17] fm == 4 ==> r0 == "Single"
+//@   ensures [C17] fm == 5 ==> r0 == "Continuous"
+//@   ensures [C17] fm == 6 ==> r0 == "Manual Focus"
+//@   ensures [C17] fm == 16 ==> r0 == "Pan Focus"
+//@   ensures [C17] fm == 256 ==> r0 == "AF + MF"
+//@   ensures [C17] fm == 512 ==> r0 == "Movie Snap Focus"
+//@   ensures [C17] fm == 519 ==> r0 == "Movie Servo AF"
+
+// meta/canon/canon.go  (MeteringMode)
+//@ func MeteringMode.String
+//@   props C17
+//@   pure
+//@   ensures [C17] mm == 0 ==> r0 == "Default"
+//@   ensures [C17] mm == 1 ==> r0 == "Spot"
+//@   ensures [C17] mm == 2 ==> r0 == "Average"
+//@   ensures [C17] mm == 3 ==> r0 == "Evaluative"
+//@   ensures [C17] mm == 4 ==> r0 == "Partial"
+//@   ensures [C17] mm == 5 ==> r0 == "Center-weighted average"
+
+// meta/canon/canon.go  (FocusRange)
+//@ func FocusRange.String
+//@   props C17
+//@   pure
+//@   ensures [C17] fr == 0 ==> r0 == "Manual"
+//@   ensures [C17] fr == 1 ==> r0 == "Auto"
+//@   ensures [C17] fr == 2 ==> r0 == "Not Known"
+//@   ensures [C17] fr == 3 ==> r0 == "Macro"
+//@   ensures [C17] fr == 4 ==> r0 == "Very Close"
+//@   ensures [C17] fr == 5 ==> r0 == "Close"
+//@   ensures [C17] fr == 6 ==> r0 == "Middle Range"
+//@   ensures [C17] fr == 7 ==> r0 == "Far Range"
+//@   ensures [C17] fr == 8 ==> r0 == "Pan Focus"
+//@   ensures [C17] fr == 9 ==> r0 == "Super Macro"
+//@   ensures [C17] fr == 10 ==> r0 == "Infinity"
+
+// meta/canon/canon.go  (ExposureMode)
+//@ func ExposureMode.String
+//@   props C17
+//@   pure
+//@   ensures [C17] em == 0 ==> r0 == "Easy"
+//@   ensures [C17] em == 1 ==> r0 == "Program AE"
+//@   ensures [C17] em == 2 ==> r0 == "Shutter speed priority AE"
+//@   ensures [C17] em == 3 ==> r0 == "Aperture-priority AE"
+//@   ensures [C17] em == 4 ==> r0 == "Manual"
+//@   ensures [C17] em == 5 ==> r0 == "Depth-of-field AE"
+//@   ensures [C17] em == 6 ==> r0 == "M-Dep"
+//@   ensures [C17] em == 7 ==> r0 == "Bulb"
+//@   ensures [C17] em == 8 ==> r0 == "Flexible-priority AE"
+
+// meta/canon/canon.go  (BracketMode)
+//@ func BracketMode.String
+//@   props C17
+//@   pure
+//@   ensures [C17] bm == 0 ==> r0 == "Off"
+//@   ensures [C17] bm == 1 ==> r0 == "AEB"
+//@   ensures [C17] bm == 2 ==> r0 == "FEB"
+//@   ensures [C17] bm == 3 ==> r0 == "ISO"
+//@   ensures [C17] bm == 4 ==> r0 == "WB"
+
+// meta/canon/canon.go  (AESetting)
+//@ func AESetting.String
+//@   props C17
+//@   pure
+//@   ensures [C17] ae == 0 ==> r0 == "Normal AE"
+//@   ensures [C17] ae == 1 ==> r0 == "Exposure Compensation"
+//@   ensures [C17] ae == 2 ==> r0 == "AE Lock"
+//@   ensures [C17] ae == 3 ==> r0 == "AE Lock + Exposure Compensation"
+//@   ensures [C17] ae == 4 ==> r0 == "No AE"
+
+// meta/canon/canon.go  (AFAreaMode)
+//@ func AFAreaMode.String
+//@   props C17
+//@   pure
+//@   ensures [C17] caf == 0 ==> r0 == "Off (Manual Focus)"
+//@   ensures [C17] caf == 1 ==> r0 == "AF Point Expansion (surround)"
+//@   ensures [C17] caf == 2 ==> r0 == "Single-point AF"
+//@   ensures [C17] caf == 4 ==> r0 == "Auto"
+//@   ensures [C17] caf == 5 ==> r0 == "Face Detect AF"
+//@   ensures [C17] caf == 6 ==> r0 == "Face + Tracking"
+//@   ensures [C17] caf == 7 ==> r0 == "Zone AF"
+//@   ensures [C17] caf == 8 ==> r0 == "AF Point Expansion (4 point)"
+//@   ensures [C17] caf == 9 ==> r0 == "Spot AF"
+//@   ensures [C17] caf == 10 ==> r0 == "AF Point Expansion (8 point)"
+//@   ensures [C17] caf == 11 ==> r0 == "Flexizone Multi (49 point)"
+//@   ensures [C17] caf == 12 ==> r0 == "Flexizone Multi (9 point)"
+//@   ensures [C17] caf == 13 ==> r0 == "Flexizone Single"
+//@   ensures [C17] caf == 14 ==> r0 == "Large Zone AF"
